@@ -458,6 +458,118 @@ def _storage_variants(run, rng, lines, meta, cell, smat, pm, prim, scell, full, 
     run.count("storage-variant oracle (arrays handed over in non-default layout)", n=ntest, section="oracle")
 
 
+def _relabel_part(run, rng, lines, meta, thorough):
+    """Description invariance: the same crystal with relabelled lattice vectors (left-handed: det M = -1; sheared /
+    cyclic: det +1) and the supercell matrix M^-T S M^T of the same supercell lattice.  The property's oracle runs ON
+    the relabelled description, and where the statement implies the same physical quantity the results are compared
+    with the original description (commensurate point set as Cartesian q modulo reciprocal lattice; recovered force
+    constants between corresponding atom pairs)."""
+    from phonopy.harmonic import force_constants as F
+    from phonopy.harmonic.dynmat_to_fc import DynmatToForceConstants, get_commensurate_points
+
+    names = ["nacl_prim", "cscl", "triclinic", "zincblende_prim", "hcp", "mono_P", "wurtzite"]
+    smats = [np.array(m) for m in ([[2, 0, 0], [0, 1, 0], [0, 0, 2]], [[2, 0, 0], [1, 2, 0], [0, 0, 1]], [[1, 1, 0], [0, 2, 0], [0, 0, 1]],
+                                    [[2, 1, 0], [0, 1, 0], [-1, 0, 2]], [[1, 0, 1], [0, 2, 0], [0, 0, 2]], [[3, 0, 0], [0, 1, 0], [0, 0, 1]])]
+    left = ["swap12", "negate3", "invert"]
+    right = ["shear", "cyclic"]
+    ncases = 8 if thorough else 2
+    for c in range(ncases):
+        mname = left[(c // 2 + run.seed) % 3] if c % 2 == 0 else right[(c // 2 + run.seed) % 2]
+        M = np.array(gen.UNIMODULAR[mname])
+        name = names[(c + run.seed) % len(names)]
+        cell, cen = _cell(name)
+        S = smats[rng.randrange(len(smats))]
+        if len(cell) * int(round(np.linalg.det(S))) > (40 if thorough else 24):
+            S = smats[0] if len(cell) <= 6 else smats[5]
+        cell2, qmap, smap = gen.relabelled_cell(cell, M)
+        S2 = smap(S)
+        variant = "omp" if c % 2 == 0 else "ser"
+        common.switch_variant(variant)
+        info = dict(cell=name, relabelling=mname, M=M.tolist(), smat=S.tolist(), smat_relabelled=S2.tolist(), lattice_relabelled=np.asarray(cell2.cell).tolist(),
+                    scaled_positions_relabelled=np.asarray(cell2.scaled_positions).tolist(), symbols=list(cell2.symbols), variant=variant)
+        try:
+            ph1 = gen.make_phonopy(cell, S, pmat="P")
+        except Exception:
+            run.count("constructor-rejected")
+            continue
+        try:
+            ph2 = gen.make_phonopy(cell2, S2, pmat="P")
+        except Exception as e:
+            run.count("relabelled description rejected by the constructor (%s)" % type(e).__name__)
+            continue
+        run.case(("relabel", name, mname, S.tolist()), nontrivial=True)
+        run.count("relabelled description %s (det M = %d)" % (mname, int(round(np.linalg.det(M)))))
+        prim1, prim2, sc1, sc2 = ph1.primitive, ph2.primitive, ph1.supercell, ph2.supercell
+        # ---- commensurate points on the relabelled description, and the same SET of Cartesian q-points
+        S1p = np.rint(np.linalg.inv(prim1.primitive_matrix)).astype(int)
+        S2p = np.rint(np.linalg.inv(prim2.primitive_matrix)).astype(int)
+        det = int(round(np.linalg.det(S2p)))
+        cp1, cp2 = get_commensurate_points(S1p), get_commensurate_points(S2p)
+        K2 = _canon_points(cp2, det)
+        if len(cp2) != det or K2 is None or len({tuple(k) for k in K2}) != det or ((K2 @ S2p) % det != 0).any():
+            run.violation("get_commensurate_points", "relabelled-description", "count/distinctness/integrality fails on the relabelled description", info)
+        else:
+            K1m = _canon_points(np.array([qmap(q_) for q_ in cp1]), det)
+            if K1m is None or {tuple(k) for k in K1m} != {tuple(k) for k in K2}:
+                run.violation("get_commensurate_points", "commensurate-set-differs-between-descriptions",
+                              "the commensurate points of the two descriptions are different sets of Cartesian q-points modulo the reciprocal lattice", info)
+        lines.append("comm " + _mat_tokens(S2p))
+        expect = None if K2 is None else " ".join(map(str, [det] + [int(x) for x in K2.ravel()]))
+        meta.append(("comm-relabelled", info, lambda line, e=expect: None if line == e else "model %r vs implementation %r" % (line[:200], (e or "")[:200])))
+        # ---- round trips on both descriptions
+        cutoff = max(0.8 * gen.min_lattice_vector(sc1.cell), 0.85 * min(np.linalg.norm(prim1.cell, axis=1)))
+        phi1, phi2 = U.pair_fc(sc1, cutoff), U.pair_fc(sc2, cutoff)
+        if not U.close(F.compact_fc_to_full_fc(prim2, F.full_fc_to_compact_fc(prim2, phi2)), phi2, 1e-12):
+            run.count("generator: pair fc not periodic (case skipped)")
+            continue
+        scale = max(1.0, float(np.abs(phi1).max()))
+        backs = {}
+        for ph, prim, sc, phi, tag in ((ph1, prim1, sc1, phi1, "original"), (ph2, prim2, sc2, phi2, "relabelled")):
+            cp = get_commensurate_points(np.rint(np.linalg.inv(prim.primitive_matrix)).astype(int))
+            for full in (True, False):
+                fc_used = phi.copy() if full else F.full_fc_to_compact_fc(prim, phi)
+                ph.force_constants = fc_used.copy()
+                ph.run_qpoints(cp, with_dynamical_matrices=True)
+                dms = np.array(ph.get_qpoints_dict()["dynamical_matrices"])
+                d2f = DynmatToForceConstants(prim, sc, is_full_fc=full)
+                d2f.dynamical_matrices = dms
+                for lang in ("C", "Py"):
+                    d2f.run(lang=lang)
+                    back = np.array(d2f.force_constants)
+                    backs[(tag, full, lang)] = back
+                    if tag == "relabelled" and not U.close(back, fc_used, TOL, scale):
+                        run.violation("DynmatToForceConstants.run", "roundtrip-fc-relabelled-%s-%s" % (lang, "full" if full else "compact"),
+                                      "description %s: fc -> D(q) at commensurate points -> fc differs from the input by %.3g" % (mname, U.maxdiff(back, fc_used)), info)
+                if tag == "relabelled":
+                    svecs, multi = U.dense_svecs(prim)
+                    tl = U.tables_line(*gen.compact_tables(ph))
+                    ph_lines = " ".join(U.phases_line(q_, svecs, multi, -1) for q_ in cp)
+                    lines.append("%s %s %d %s %s %s" % ("d2ffull" if full else "d2f", tl, len(cp), U.flat(U.mass_sqrt(prim.masses)), U.flat_complex(dms), ph_lines))
+                    meta.append(("inverse-C-%s-relabelled" % ("full" if full else "compact"), info, lambda line, back=backs[(tag, full, "C")]: _cmp(U.parse_rats(line, back.shape), back)))
+        # ---- the force constants recovered in the two descriptions agree for corresponding atom pairs (Cartesian 3x3 blocks)
+        r1, r2 = np.asarray(sc1.positions), np.asarray(sc2.positions)
+        inv1 = np.linalg.inv(np.asarray(sc1.cell))
+        amap = []
+        for x in r2:
+            d = (r1 - x) @ inv1
+            d -= np.rint(d)
+            j = np.nonzero(np.abs(d @ np.asarray(sc1.cell)).max(axis=1) < 1e-6)[0]
+            amap.append(int(j[0]) if len(j) == 1 else -1)
+        if min(amap) < 0 or sorted(amap) != list(range(len(r1))):
+            run.count("generator: atoms of the two descriptions could not be matched (comparison skipped)")
+        else:
+            amap = np.array(amap)
+            b2, b1 = backs[("relabelled", True, "C")], backs[("original", True, "C")]
+            if not U.close(b2, b1[np.ix_(amap, amap)], TOL, scale):
+                run.violation("DynmatToForceConstants.run", "fc-differs-between-descriptions",
+                              "force constants recovered in the %s description differ from those of the original description for corresponding atom pairs by %.3g"
+                              % (mname, U.maxdiff(b2, b1[np.ix_(amap, amap)])), info)
+        run.count("description-invariance oracle", section="oracle")
+        if len(run.cov["samples"]) < 7:
+            run.sample(dict(kind="relabelled", cell=name, relabelling=mname, smat=S.tolist(), smat_relabelled=S2.tolist()), limit=7)
+    common.switch_variant("omp")
+
+
 def _prim_tables(prim):
     """(p2s, s2pp, nsym_list, perms) of a Primitive that is not attached to a Phonopy object"""
     from phonopy.harmonic.force_constants import get_nsym_list_and_s2pp
@@ -712,6 +824,7 @@ def main(run):
     _transform_part(run, rng, lines, meta, thorough)
     _ph2ph_part(run, rng, thorough, lines, meta)
     _reordered_part(run, rng, lines, meta, thorough)
+    _relabel_part(run, rng, lines, meta, thorough)
     out = common.lean_run_driver("C06", lines)
     if len(out) != len(lines):
         run.broke("correspondence", "driver answered %d lines for %d requests" % (len(out), len(lines)))
